@@ -19,7 +19,7 @@ var sweepFailed bool
 // to the size of a whole healthy handshake (connect, register, configure, synchronize) plus
 // two, the history [Start with the connection cut after k bytes] followed by the epilogue
 // every case gets (Wait returns, notifications, a fresh healthy Start, a probe, Stop). The quick
-// tier takes every offset up to 16 bytes past the Configure exchange and every fourth one
+// tier takes every offset up to 16 bytes past the Configure exchange and every eighth one
 // inside synchronization over unix sockets; the thorough tier takes them all.
 func TestExh_C16(t *testing.T) {
 	if i, _ := ev.Shard(); i != 0 {
@@ -96,6 +96,26 @@ func TestExh_C16(t *testing.T) {
 	for _, acts := range directed {
 		for _, dl := range [][]int{nil, {5}} {
 			run(C16Case{Actions: acts, DelayConnClosed: dl})
+		}
+	}
+	// extra requests from a raw runtime (Shutdown at each of the three points, a second
+	// Configure, another Synchronize, an unknown event, an unknown method): they must leave
+	// the later sessions of the same stub alone - the epilogue's fresh session stays up for a
+	// while and is probed
+	if !ev.Known(knownD10) {
+		rawSends := func(sends ...Send) *Script {
+			return &Script{Kind: "raw", RegMs: 5000, ReqMs: 2000, DoSync: true, Activate: true, Sends: sends}
+		}
+		run(C16Case{Plugin: "all", LingerMs: 700, Actions: []Action{{Op: "start", Script: rawSends(Send{"after-probe", "shutdown"})}, {Op: "stop"}, {Op: "start", Script: sc("healthy")}}})
+		run(C16Case{Plugin: "shutdown", LingerMs: 700, Actions: []Action{{Op: "start", Script: rawSends(Send{"before-end", "shutdown"})}, {Op: "drop"}}})
+		run(C16Case{Plugin: "shutdown", LingerMs: 1300, Actions: []Action{{Op: "start", Script: rawSends(Send{"after-sync", "configure"}, Send{"after-probe", "shutdown"}, Send{"after-probe", "synchronize"},
+			Send{"before-end", "unknown-event"}, Send{"before-end", "unknown-method"})}, {Op: "probe"}, {Op: "restart", Script: sc("healthy")}, {Op: "probe"}}})
+		if ev.Thorough() {
+			for _, pt := range pluginTypes {
+				for _, at := range []string{"after-sync", "after-probe", "before-end"} {
+					run(C16Case{Plugin: pt, LingerMs: 700, Actions: []Action{{Op: "start", Script: rawSends(Send{at, "shutdown"})}, {Op: "probe"}, {Op: "stop"}}})
+				}
+			}
 		}
 	}
 	// the other plugin types (the stub's behaviour depends on the interfaces the plugin object
@@ -214,6 +234,9 @@ func TestExh_C16(t *testing.T) {
 				continue
 			}
 			for k := int64(0); k <= h.total[d]+2; k++ {
+				if !ev.Thorough() && k > h.s2rAtCfg+16 && k%4 != 0 {
+					continue // quick: every offset through the Configure answer, every fourth beyond
+				}
 				sc := &Script{Kind: "cut", Dir: dirNames[d], K: int(k), Sync: true}
 				if k%2 == 1 {
 					sc.Chunks = []int{1}
@@ -237,8 +260,8 @@ func TestExh_C16(t *testing.T) {
 				complete = false
 				continue
 			}
-			if !ev.Thorough() && k > atCfg[d]+16 && k%4 != 0 {
-				// quick tier: every offset up to the end of Configure, every fourth one inside
+			if !ev.Thorough() && k > atCfg[d]+16 && k%8 != 0 {
+				// quick tier: every offset up to the end of Configure, every eighth one inside
 				// synchronization (the thorough tier takes them all)
 				complete = false
 				continue
